@@ -1,8 +1,352 @@
-//! C20 — generator and driver of the real API.
+//! C20 — ORF finder, complements, alphabets / rank transform, GC content.
+//!
+//! orf <starts> <stops> <min_len> <seq>      starts/stops: `,`-lists of 3-byte codons (hex), disjoint sets
+//!        => `s:e:o,s:e:o,…` (Orf{start,end,offset} in the order `find_all` yields them) or `-`
+//! rc <dna|rna> <seq>                        => `<revcomp(seq)> <revcomp(revcomp(seq))>`
+//! comp <dna|rna>                            => hex of complement(0), …, complement(255)
+//! alpha <symbols> <t1>/<t2>/…               Alphabet::new(symbols), RankTransform::new(&alphabet)
+//!        => `len:<n> max:<m|n> emp:<0|1> w:<is_word bits> r:<get(s) for each given symbol> t:<transform(ti)|nw>/… ra:<0|1>`
+//!           (transform only for texts that are words; ra = RankTransform::alphabet() == alphabet)
+//! gc <seq>  (non-empty)                     => `<gc_content {:e}> <gc3_content {:e}>`
 use crate::util::*;
+use bio::alphabets::{self, Alphabet, RankTransform};
+use bio::seq_analysis::{gc, orf};
 
-pub fn gen(_tier: &str, _rng: &mut Rng, _out: &mut Vec<String>) {}
+fn codons(tok: &str) -> Result<Vec<[u8; 3]>, String> {
+    let mut out = vec![];
+    for c in split_list(tok, ',') {
+        let b = unhex(c)?;
+        if b.len() != 3 {
+            return Err("codon must have 3 bytes".into());
+        }
+        out.push([b[0], b[1], b[2]]);
+    }
+    Ok(out)
+}
 
-pub fn exec(_toks: &[&str]) -> Result<String, String> {
-    Err("unimplemented".into())
+fn fmt_codons(cs: &[[u8; 3]]) -> String {
+    if cs.is_empty() {
+        "-".into()
+    } else {
+        cs.iter().map(|c| hex(c)).collect::<Vec<_>>().join(",")
+    }
+}
+
+fn rand_codon(rng: &mut Rng, alpha: &[u8]) -> [u8; 3] {
+    [*rng.pick(alpha), *rng.pick(alpha), *rng.pick(alpha)]
+}
+
+fn gen_orf(rng: &mut Rng) -> String {
+    let alpha: Vec<u8> = match rng.below(8) {
+        0 => b"AT".to_vec(),
+        1 => b"AG".to_vec(),
+        2 | 3 => b"ATG".to_vec(),
+        4 | 5 | 6 => b"ATGC".to_vec(),
+        _ => vec![0, 255, b'A', 7],
+    };
+    let classic = alpha.len() >= 3 && alpha[..3] == *b"ATG" && rng.chance(1, 2);
+    let (starts, stops): (Vec<[u8; 3]>, Vec<[u8; 3]>) = if classic {
+        let mut st = vec![*b"ATG"];
+        if rng.chance(1, 4) {
+            st.push(*b"GTG");
+        }
+        let mut sp = vec![*b"TGA", *b"TAG", *b"TAA"];
+        sp.truncate(1 + rng.below(3));
+        (st, sp)
+    } else {
+        let ns = 1 + rng.below(3);
+        let np = 1 + rng.below(3);
+        let mut st: Vec<[u8; 3]> = vec![];
+        while st.len() < ns {
+            let c = rand_codon(rng, &alpha);
+            if !st.contains(&c) {
+                st.push(c);
+            }
+        }
+        let mut sp: Vec<[u8; 3]> = vec![];
+        let mut tries = 0;
+        while sp.len() < np && tries < 50 {
+            tries += 1;
+            let c = rand_codon(rng, &alpha);
+            if !st.contains(&c) && !sp.contains(&c) {
+                sp.push(c);
+            }
+        }
+        if rng.chance(1, 25) {
+            sp.clear(); // no stop codon at all: nothing may be reported
+        }
+        (st, sp)
+    };
+    let seq: Vec<u8> = match rng.below(5) {
+        0 => {
+            let n = rng.below(121);
+            rng.seq(&alpha, n)
+        }
+        1 => {
+            let n = rng.below(12);
+            rng.seq(&alpha, n)
+        }
+        _ => {
+            // codon-structured: starts, stops, fillers and frame shifts, so that starts nest inside one frame
+            // and open frames overlap across the three offsets
+            let mut s = vec![];
+            let target = 3 + rng.below(118);
+            let p_start = 1 + rng.below(4);
+            let p_stop = 1 + rng.below(3);
+            while s.len() < target {
+                match rng.below(10) {
+                    x if x < p_start => {
+                        let c: [u8; 3] = *rng.pick(&starts[..]);
+                        s.extend_from_slice(&c)
+                    }
+                    x if x < p_start + p_stop && !stops.is_empty() => {
+                        let c: [u8; 3] = *rng.pick(&stops[..]);
+                        s.extend_from_slice(&c)
+                    }
+                    9 => {
+                        let k = 1 + rng.below(2);
+                        s.extend(rng.seq(&alpha, k))
+                    }
+                    _ => {
+                        let c = rand_codon(rng, &alpha);
+                        s.extend_from_slice(&c)
+                    }
+                }
+            }
+            s.truncate(120);
+            if rng.chance(1, 3) {
+                // cut inside the last codon: an open frame running into the end of the sequence
+                let cut = rng.below(3.min(s.len()) + 1);
+                s.truncate(s.len() - cut);
+            }
+            s
+        }
+    };
+    let min_len = match rng.below(10) {
+        0 | 1 | 2 => 0,
+        3 | 4 | 5 => rng.below(13),
+        6 | 7 => 3 * rng.below(8) + rng.below(3), // around the multiples of three that ORF lengths take
+        _ => rng.below(41),
+    };
+    format!("orf {} {} {} {}", fmt_codons(&starts), fmt_codons(&stops), min_len, hex(&seq))
+}
+
+fn gen_alpha(rng: &mut Rng) -> String {
+    let n = match rng.below(10) {
+        0 => 0,
+        1 => 1,
+        2 => 256,
+        3 => 255,
+        4 | 5 => 2 + rng.below(6),
+        _ => 1 + rng.below(256),
+    };
+    // a random subset of the byte values of size ≤ n, given in random order and with repetitions
+    let mut syms: Vec<u8> = match rng.below(4) {
+        0 => (0..n).map(|i| i as u8).collect(), // initial segment incl. 0
+        1 => (0..n).map(|i| (255 - (i % 256)) as u8).collect(), // final segment incl. 255
+        _ => (0..n).map(|_| rng.below(256) as u8).collect(),
+    };
+    for i in (1..syms.len()).rev() {
+        let j = rng.below(i + 1);
+        syms.swap(i, j);
+    }
+    if !syms.is_empty() && rng.chance(1, 3) {
+        let d = syms[rng.below(syms.len())];
+        syms.push(d);
+    }
+    let all: Vec<u8> = (0..=255).collect();
+    let k = 1 + rng.below(3);
+    let texts: Vec<String> = (0..k)
+        .map(|_| {
+            let len = rng.below(20);
+            let t = if syms.is_empty() || rng.chance(1, 3) {
+                // mostly members, one position possibly not
+                let mut t = if syms.is_empty() { vec![] } else { rng.seq(&syms, len) };
+                if rng.chance(2, 3) {
+                    let c = *rng.pick(&all);
+                    let pos = rng.below(t.len() + 1);
+                    t.insert(pos, c);
+                }
+                t
+            } else {
+                rng.seq(&syms, len)
+            };
+            hex(&t)
+        })
+        .collect();
+    format!("alpha {} {}", hex(&syms), texts.join("/"))
+}
+
+fn gen_rc(rng: &mut Rng) -> String {
+    let kind = if rng.chance(1, 2) { "dna" } else { "rna" };
+    let all: Vec<u8> = (0..=255).collect();
+    let alpha: &[u8] = match rng.below(4) {
+        0 => b"ACGTUacgtu",
+        1 => b"ACGTURYSWKMBDHVNZacguryswkmbdhvnzt",
+        2 => b"ACGTN-*.xX@[`{",
+        _ => &all,
+    };
+    let n = rng.below(40);
+    format!("rc {} {}", kind, hex(&rng.seq(alpha, n)))
+}
+
+fn gen_gc(rng: &mut Rng) -> String {
+    let all: Vec<u8> = (0..=255).collect();
+    let alpha: &[u8] = match rng.below(5) {
+        0 => b"GC",
+        1 => b"AT",
+        2 => b"ACGTacgt",
+        3 => b"GCgcSsNn",
+        _ => &all,
+    };
+    let n = match rng.below(6) {
+        0 => 1 + rng.below(3),
+        1 => 3000 + rng.below(4000),
+        _ => 1 + rng.below(200),
+    };
+    format!("gc {}", hex(&rng.seq(alpha, n)))
+}
+
+fn enum_seqs(alpha: &[u8], maxlen: usize) -> Vec<Vec<u8>> {
+    let mut out = vec![];
+    let mut cur: Vec<Vec<u8>> = vec![vec![]];
+    for _ in 0..=maxlen {
+        out.extend(cur.iter().cloned());
+        let mut nxt = Vec::with_capacity(cur.len() * alpha.len());
+        for s in &cur {
+            for &a in alpha {
+                let mut t = s.clone();
+                t.push(a);
+                nxt.push(t);
+            }
+        }
+        cur = nxt;
+    }
+    out
+}
+
+pub fn gen(tier: &str, rng: &mut Rng, out: &mut Vec<String>) {
+    let thorough = tier == "thorough";
+    out.push("comp dna".into());
+    out.push("comp rna".into());
+    let n_orf = if thorough { 100_000 } else { 4_000 };
+    let n_alpha = if thorough { 20_000 } else { 1_000 };
+    let n_rc = if thorough { 10_000 } else { 600 };
+    let n_gc = if thorough { 5_000 } else { 400 };
+    for _ in 0..n_orf {
+        out.push(gen_orf(rng));
+    }
+    for _ in 0..n_alpha {
+        out.push(gen_alpha(rng));
+    }
+    for _ in 0..n_rc {
+        out.push(gen_rc(rng));
+    }
+    for _ in 0..n_gc {
+        out.push(gen_gc(rng));
+    }
+    if thorough {
+        // exhaustive small scope: every sequence over {A,T,G} of length ≤ 9, classic codon sets, three minimum lengths
+        let starts = fmt_codons(&[*b"ATG"]);
+        let stops = fmt_codons(&[*b"TGA", *b"TAG", *b"TAA"]);
+        for s in enum_seqs(b"ATG", 9) {
+            for ml in [0usize, 3, 4] {
+                out.push(format!("orf {} {} {} {}", starts, stops, ml, hex(&s)));
+            }
+        }
+    }
+}
+
+pub fn exec(toks: &[&str]) -> Result<String, String> {
+    if toks.is_empty() {
+        return Err("arity".into());
+    }
+    match toks[0] {
+        "orf" => {
+            if toks.len() != 5 {
+                return Err("arity".into());
+            }
+            let starts = codons(toks[1])?;
+            let stops = codons(toks[2])?;
+            if starts.iter().any(|c| stops.contains(c)) {
+                return Err("start and stop codon sets must be disjoint".into());
+            }
+            let min_len: usize = parse(toks[3])?;
+            let seq = unhex(toks[4])?;
+            let finder = orf::Finder::new(starts.iter().collect(), stops.iter().collect(), min_len);
+            let found: Vec<String> = finder
+                .find_all(&seq)
+                .map(|orf::Orf { start, end, offset }| format!("{}:{}:{}", start, end, offset))
+                .collect();
+            Ok(join(&found, ","))
+        }
+        "rc" => {
+            if toks.len() != 3 {
+                return Err("arity".into());
+            }
+            let seq = unhex(toks[2])?;
+            let (a, b) = match toks[1] {
+                "dna" => {
+                    let a = alphabets::dna::revcomp(&seq);
+                    let b = alphabets::dna::revcomp(&a);
+                    (a, b)
+                }
+                "rna" => {
+                    let a = alphabets::rna::revcomp(&seq);
+                    let b = alphabets::rna::revcomp(&a);
+                    (a, b)
+                }
+                _ => return Err("kind".into()),
+            };
+            Ok(format!("{} {}", hex(&a), hex(&b)))
+        }
+        "comp" => {
+            if toks.len() != 2 {
+                return Err("arity".into());
+            }
+            let t: Vec<u8> = match toks[1] {
+                "dna" => (0..=255u8).map(alphabets::dna::complement).collect(),
+                "rna" => (0..=255u8).map(alphabets::rna::complement).collect(),
+                _ => return Err("kind".into()),
+            };
+            Ok(hex(&t))
+        }
+        "alpha" => {
+            if toks.len() != 3 {
+                return Err("arity".into());
+            }
+            let syms = unhex(toks[1])?;
+            let texts: Vec<Vec<u8>> = split_ne(toks[2], '/').into_iter().map(unhex).collect::<Result<_, _>>()?;
+            let a = Alphabet::new(&syms);
+            let rt = RankTransform::new(&a);
+            let words: Vec<bool> = texts.iter().map(|t| a.is_word(t)).collect();
+            let ranks: Vec<u8> = syms.iter().map(|&s| rt.get(s)).collect();
+            let tr: Vec<String> = texts
+                .iter()
+                .zip(&words)
+                .map(|(t, &w)| if w { hex(&rt.transform(t)) } else { "nw".to_string() })
+                .collect();
+            Ok(format!(
+                "len:{} max:{} emp:{} w:{} r:{} t:{} ra:{}",
+                a.len(),
+                a.max_symbol().map(|m| m.to_string()).unwrap_or_else(|| "n".into()),
+                a.is_empty() as u8,
+                words.iter().map(|&w| if w { '1' } else { '0' }).collect::<String>(),
+                hex(&ranks),
+                tr.join("/"),
+                (rt.alphabet() == a) as u8
+            ))
+        }
+        "gc" => {
+            if toks.len() != 2 {
+                return Err("arity".into());
+            }
+            let seq = unhex(toks[1])?;
+            if seq.is_empty() {
+                return Err("empty sequence is outside the domain of gc_content (0/0)".into());
+            }
+            Ok(format!("{:e} {:e}", gc::gc_content(&seq), gc::gc3_content(&seq)))
+        }
+        _ => Err("op".into()),
+    }
 }
